@@ -141,7 +141,7 @@ class Lexer(object):
         while s[le] not in '\n\0':
             le += 1
         out = '%s:%d: %s\n' % (self.filename, line, msg)
-        if col < 72:
+        if 0 < col < 72:
             ctx = s[ls:le]
             if len(ctx) > 72:
                 ctx = ctx[:72] + '...'
@@ -730,6 +730,10 @@ class ManifestParser(object):
         edge.implicit_deps = implicit
         edge.order_only_deps = order_only
 
+        if len(edge.outputs) > 1 and edge.get_binding('deps'):
+            lx.error("multiple outputs aren't (yet?) supported by depslog; "
+                     "bring this up on the mailing list if it affects you")
+
         if edge.is_phony():
             # phonycycle=warn: a phony target naming itself as input.
             out = edge.outputs[0]
@@ -1167,3 +1171,875 @@ class DependencyScan(object):
                 explain('command line not found in log for %s' % output.path)
                 return True
         return False
+
+
+# --------------------------------------------------------------------------
+# Plan (which edges to run, in which order), after Ninja's Plan
+
+WANT_NOTHING, WANT_TO_START, WANT_TO_FINISH = 0, 1, 2
+
+
+class Plan(object):
+    def __init__(self):
+        self.want = {}
+        self.ready = set()
+        self.command_edges = 0
+        self.wanted_edges = 0
+
+    def more_to_do(self):
+        return self.wanted_edges > 0 and self.command_edges > 0
+
+    def add_target(self, node):
+        return self._add_sub_target(node, None)
+
+    def _add_sub_target(self, node, dependent):
+        edge = node.in_edge
+        if edge is None:
+            if node.dirty:
+                ref = ''
+                if dependent is not None:
+                    ref = ", needed by '%s'," % dependent.path
+                raise NinjaError("'%s'%s missing and no known rule to make it"
+                                 % (node.path, ref))
+            return False
+        if edge.outputs_ready:
+            return False
+        first = edge not in self.want
+        if first:
+            self.want[edge] = WANT_NOTHING
+        if node.dirty and self.want[edge] == WANT_NOTHING:
+            self.want[edge] = WANT_TO_START
+            self._edge_wanted(edge)
+            if edge.all_inputs_ready():
+                self._schedule(edge)
+        if not first:
+            return True
+        for i in list(edge.inputs):
+            self._add_sub_target(i, node)
+        return True
+
+    def _edge_wanted(self, edge):
+        self.wanted_edges += 1
+        if not edge.is_phony():
+            self.command_edges += 1
+
+    def _schedule(self, edge):
+        if self.want[edge] == WANT_TO_FINISH:
+            return
+        self.want[edge] = WANT_TO_FINISH
+        self.ready.add(edge)
+
+    def find_work(self):
+        if not self.ready:
+            return None
+        edge = min(self.ready, key=lambda e: e.id)
+        self.ready.remove(edge)
+        return edge
+
+    def edge_finished(self, edge, success):
+        directly_wanted = self.want[edge] != WANT_NOTHING
+        if not success:
+            return
+        if directly_wanted:
+            self.wanted_edges -= 1
+        del self.want[edge]
+        edge.outputs_ready = True
+        for o in edge.outputs:
+            for oe in o.out_edges:
+                if oe in self.want:
+                    self._edge_maybe_ready(oe)
+
+    def _edge_maybe_ready(self, edge):
+        if edge.all_inputs_ready():
+            if self.want[edge] != WANT_NOTHING:
+                self._schedule(edge)
+            else:
+                self.edge_finished(edge, True)
+
+    def clean_node(self, scan, node):
+        """restat: `node` turned out unchanged; un-dirty what depends on it."""
+        node.dirty = False
+        for oe in node.out_edges:
+            w = self.want.get(oe)
+            if w is None or w == WANT_NOTHING:
+                continue
+            if oe.deps_missing:
+                continue
+            ins = oe.non_order_only_inputs()
+            if any(i.dirty for i in ins):
+                continue
+            most_recent = None
+            for i in ins:
+                if most_recent is None or i.mtime > most_recent.mtime:
+                    most_recent = i
+            if not scan.recompute_outputs_dirty(oe, most_recent):
+                for o in oe.outputs:
+                    self.clean_node(scan, o)
+                self.want[oe] = WANT_NOTHING
+                self.wanted_edges -= 1
+                if not oe.is_phony():
+                    self.command_edges -= 1
+
+
+# --------------------------------------------------------------------------
+# Builder
+
+class Config(object):
+    def __init__(self):
+        self.dry_run = False
+        self.verbose = False
+        self.failures_allowed = 1
+        self.keep_rsp = False
+        self.keep_depfile = False
+
+
+def trace_event(obj):
+    path = os.environ.get('REFNINJA_TRACE')
+    if not path:
+        return
+    with open(path, 'a') as f:
+        f.write(json.dumps(obj, sort_keys=True) + '\n')
+
+
+def _makedirs_for(path):
+    d = os.path.dirname(path)
+    if d:
+        try:
+            os.makedirs(d, exist_ok=True)
+        except OSError as e:
+            raise NinjaError('mkdir(%s): %s' % (d, os.strerror(e.errno)))
+
+
+def _remove_file(path):
+    """1 if removed, 0 if it did not exist; raises NinjaError otherwise."""
+    try:
+        os.unlink(path)
+        return 1
+    except FileNotFoundError:
+        return 0
+    except OSError as e:
+        raise NinjaError('remove(%s): %s' % (path, os.strerror(e.errno)))
+
+
+class Builder(object):
+    def __init__(self, state, config, build_log, deps_log):
+        self.state = state
+        self.config = config
+        self.build_log = build_log
+        self.deps_log = deps_log
+        self.scan = DependencyScan(state, build_log, deps_log)
+        self.plan = Plan()
+        self.finished = 0
+
+    def add_target(self, node):
+        self.scan.recompute_dirty(node)
+        e = node.in_edge
+        if e is not None and e.outputs_ready:
+            return
+        self.plan.add_target(node)
+
+    def already_up_to_date(self):
+        return not self.plan.more_to_do()
+
+    def build(self):
+        """Runs the plan.  Returns None on success, else an error string."""
+        allowed = self.config.failures_allowed
+        while self.plan.more_to_do():
+            if allowed and self.plan.ready:
+                edge = self.plan.find_work()
+                if edge.is_phony():
+                    self.plan.edge_finished(edge, True)
+                    continue
+                if not self._run_edge(edge):
+                    allowed -= 1
+                continue
+            if allowed == 0:
+                if self.config.failures_allowed > 1:
+                    return 'subcommands failed'
+                return 'subcommand failed'
+            if allowed < self.config.failures_allowed:
+                return 'cannot make progress due to previous errors'
+            return 'stuck [this is a bug]'
+        return None
+
+    def _status(self, edge, count, command):
+        desc = edge.get_binding('description')
+        text = command if (self.config.verbose or not desc) else desc
+        sys.stdout.write('[%d/%d] %s\n'
+                         % (count, self.plan.command_edges, text))
+        sys.stdout.flush()
+
+    def _extract_deps(self, edge):
+        """deps=gcc: returns list of dep paths; raises ValueError(msg)."""
+        depfile = edge.unescaped_depfile()
+        if not depfile:
+            raise ValueError('edge with deps=gcc but no depfile makes no '
+                             'sense')
+        try:
+            content = read_text_file(depfile)
+        except NinjaError as e:
+            raise ValueError(str(e))
+        if not content:
+            return []
+        outs, ins = parse_depfile(content)
+        deps = [canonicalize_path(i) for i in ins]
+        if not self.config.keep_depfile:
+            try:
+                os.unlink(depfile)
+            except OSError as e:
+                raise ValueError('deleting depfile: %s\n'
+                                 % os.strerror(e.errno))
+        return deps
+
+    def _run_edge(self, edge):
+        cfg = self.config
+        command = edge.evaluate_command()
+        console = edge.pool.name == 'console'
+        rule = edge.rule.name
+        outs = [o.path for o in edge.outputs]
+
+        if cfg.dry_run:
+            self.finished += 1
+            self._status(edge, self.finished, command)
+            trace_event({'outputs': outs, 'rule': rule, 'command': command,
+                         'rc': None, 'dry_run': True})
+            self.plan.edge_finished(edge, True)
+            return True
+
+        for o in edge.outputs:
+            _makedirs_for(o.path)
+        depfile = edge.unescaped_depfile()
+        if depfile:
+            _makedirs_for(depfile)
+        rspfile = edge.unescaped_rspfile()
+        if rspfile:
+            content = edge.get_binding('rspfile_content')
+            try:
+                with open(rspfile, 'wb') as f:
+                    f.write(content.encode('utf-8', 'surrogateescape'))
+            except OSError as e:
+                raise NinjaError('%s: %s' % (rspfile, os.strerror(e.errno)))
+
+        output = ''
+        if console:
+            self._status(edge, self.finished, command)
+            rc = subprocess.call(['/bin/sh', '-c', command])
+        else:
+            p = subprocess.Popen(['/bin/sh', '-c', command],
+                                 stdin=subprocess.DEVNULL,
+                                 stdout=subprocess.PIPE,
+                                 stderr=subprocess.STDOUT)
+            data = p.communicate()[0]
+            rc = p.returncode
+            output = data.decode('utf-8', 'replace')
+        self.finished += 1
+
+        deps_type = edge.get_binding('deps')
+        deps = []
+        if deps_type:
+            try:
+                deps = self._extract_deps(edge)
+            except ValueError as e:
+                if rc == 0:
+                    if output:
+                        output += '\n'
+                    output += str(e)
+                    rc = 1
+
+        if not console:
+            self._status(edge, self.finished, command)
+        if rc != 0:
+            sys.stdout.write('FAILED: ' + ''.join(o + ' ' for o in outs) +
+                             '\n' + command + '\n')
+        if output:
+            sys.stdout.write(output)
+            if not output.endswith('\n'):
+                sys.stdout.write('\n')
+        sys.stdout.flush()
+        trace_event({'outputs': outs, 'rule': rule, 'command': command,
+                     'rc': rc})
+        if rc != 0:
+            self.plan.edge_finished(edge, False)
+            return False
+
+        # Restat the outputs.
+        restat = edge.get_binding_bool('restat')
+        output_mtime = 0
+        node_cleaned = False
+        for o in edge.outputs:
+            old = o.mtime
+            new = o.stat()
+            if new > output_mtime:
+                output_mtime = new
+            if old == new and restat:
+                self.plan.clean_node(self.scan, o)
+                node_cleaned = True
+        if node_cleaned:
+            restat_mtime = 0
+            for i in edge.non_order_only_inputs():
+                m = i.stat()
+                if m > restat_mtime:
+                    restat_mtime = m
+            if restat_mtime != 0 and not deps_type and depfile:
+                try:
+                    m = os.stat(depfile).st_mtime_ns
+                except OSError:
+                    m = 0
+                if m > restat_mtime:
+                    restat_mtime = m
+            output_mtime = restat_mtime
+
+        self.plan.edge_finished(edge, True)
+        if rspfile and not cfg.keep_rsp:
+            try:
+                os.unlink(rspfile)
+            except OSError:
+                pass
+        if self.build_log is not None:
+            self.build_log.record(edge, output_mtime)
+        if deps_type:
+            for o in edge.outputs:
+                try:
+                    m = os.stat(o.path).st_mtime_ns or 1
+                except OSError:
+                    m = 0
+                self.deps_log.record(o.path, m, deps)
+        return True
+
+
+# --------------------------------------------------------------------------
+# Tools
+
+class Cleaner(object):
+    def __init__(self, state, config):
+        self.state = state
+        self.config = config
+        self.removed = set()
+        self.count = 0
+        self.status = 0
+
+    def verbose(self):
+        return self.config.verbose or self.config.dry_run
+
+    def header(self):
+        sys.stdout.write('Cleaning...' + ('\n' if self.verbose() else ' '))
+
+    def footer(self):
+        sys.stdout.write('%d files.\n' % self.count)
+
+    def remove(self, path):
+        if path in self.removed:
+            return
+        self.removed.add(path)
+        if self.config.dry_run:
+            if os.path.lexists(path):
+                self.report(path)
+            return
+        try:
+            if _remove_file(path):
+                self.report(path)
+        except NinjaError as e:
+            sys.stderr.write('ninja: error: %s\n' % e)
+            self.status = 1
+
+    def report(self, path):
+        self.count += 1
+        if self.verbose():
+            sys.stdout.write('Remove %s\n' % path)
+
+    def remove_edge_files(self, edge):
+        depfile = edge.unescaped_depfile()
+        if depfile:
+            self.remove(depfile)
+        rspfile = edge.unescaped_rspfile()
+        if rspfile:
+            self.remove(rspfile)
+
+    def clean_all(self, generator):
+        self.header()
+        for e in self.state.edges:
+            if e.is_phony():
+                continue
+            if not generator and e.get_binding_bool('generator'):
+                continue
+            for o in e.outputs:
+                self.remove(o.path)
+            self.remove_edge_files(e)
+        self.footer()
+        return self.status
+
+    def clean_targets(self, targets):
+        self.header()
+        visited = set()
+
+        def do(node):
+            e = node.in_edge
+            if e is not None:
+                if not e.is_phony():
+                    self.remove(node.path)
+                    self.remove_edge_files(e)
+                for i in e.inputs:
+                    if i not in visited:
+                        visited.add(i)
+                        do(i)
+            visited.add(node)
+
+        for t in targets:
+            path = canonicalize_path(t)
+            if not path:
+                sys.stderr.write('ninja: error: failed to canonicalize '
+                                 "'%s': empty path\n" % t)
+                self.status = 1
+                continue
+            node = self.state.lookup_node(path)
+            if node is None:
+                sys.stderr.write("ninja: error: unknown target '%s'\n" % t)
+                self.status = 1
+                continue
+            if self.verbose():
+                sys.stdout.write('Target %s\n' % t)
+            do(node)
+        self.footer()
+        return self.status
+
+    def clean_rules(self, rules):
+        self.header()
+        for name in rules:
+            if self.state.env.lookup_rule(name) is None:
+                sys.stderr.write("ninja: error: unknown rule '%s'\n" % name)
+                self.status = 1
+                continue
+            if self.verbose():
+                sys.stdout.write('Rule %s\n' % name)
+            for e in self.state.edges:
+                if e.rule.name == name:
+                    for o in e.outputs:
+                        self.remove(o.path)
+                    self.remove_edge_files(e)
+        self.footer()
+        return self.status
+
+
+def tool_clean(state, config, args):
+    generator = False
+    clean_rules = False
+    rest = []
+    for i, a in enumerate(args):
+        if a == '--':
+            rest.extend(args[i + 1:])
+            break
+        if a.startswith('-') and len(a) > 1 and not rest:
+            for c in a[1:]:
+                if c == 'g':
+                    generator = True
+                elif c == 'r':
+                    clean_rules = True
+                else:
+                    raise Unsupported("option -%s of '-t clean'" % c)
+        else:
+            rest.append(a)
+    if clean_rules and not rest:
+        raise NinjaError('expected a rule to clean')
+    cleaner = Cleaner(state, config)
+    if rest:
+        if clean_rules:
+            return cleaner.clean_rules(rest)
+        return cleaner.clean_targets(rest)
+    return cleaner.clean_all(generator)
+
+
+def _targets_list(nodes, depth, indent):
+    for n in nodes:
+        sys.stdout.write('  ' * indent)
+        if n.in_edge is not None:
+            sys.stdout.write('%s: %s\n' % (n.path, n.in_edge.rule.name))
+            if depth > 1 or depth <= 0:
+                _targets_list(n.in_edge.inputs, depth - 1, indent + 1)
+        else:
+            sys.stdout.write('%s\n' % n.path)
+
+
+def tool_targets(state, config, args):
+    depth = 1
+    if args:
+        mode = args[0]
+        if mode == 'rule':
+            rule = args[1] if len(args) > 1 else ''
+            if not rule:
+                # source files: inputs without an in-edge
+                seen = set()
+                for e in state.edges:
+                    for i in e.inputs:
+                        if i.in_edge is None and i.path not in seen:
+                            seen.add(i.path)
+                            sys.stdout.write('%s\n' % i.path)
+            else:
+                seen = set()
+                for e in state.edges:
+                    if e.rule.name == rule:
+                        for o in e.outputs:
+                            seen.add(o.path)
+                for p in sorted(seen):
+                    sys.stdout.write('%s\n' % p)
+            return 0
+        if mode == 'depth':
+            if len(args) > 1:
+                try:
+                    depth = int(args[1])
+                except ValueError:
+                    depth = 0
+        elif mode == 'all':
+            for e in state.edges:
+                for o in e.outputs:
+                    sys.stdout.write('%s: %s\n' % (o.path, e.rule.name))
+            return 0
+        else:
+            sys.stderr.write("ninja: error: unknown target tool mode '%s'\n"
+                             % mode)
+            return 1
+    _targets_list(state.root_nodes(), depth, 0)
+    return 0
+
+
+def collect_targets(state, args):
+    if not args:
+        return state.default_nodes()
+    nodes = []
+    for a in args:
+        path = canonicalize_path(a)
+        if not path:
+            raise NinjaError("failed to canonicalize '%s': empty path" % a)
+        if path.endswith('^'):
+            raise Unsupported("'target^' command-line syntax")
+        node = state.lookup_node(path)
+        if node is None:
+            msg = "unknown target '%s'" % path
+            if path == 'clean':
+                msg += ", did you mean 'ninja -t clean'?"
+            elif path == 'help':
+                msg += ", did you mean 'ninja -h'?"
+            raise NinjaError(msg)
+        nodes.append(node)
+    return nodes
+
+
+def tool_commands(state, config, args):
+    single = False
+    while args and args[0].startswith('-') and len(args[0]) > 1:
+        if args[0] == '-s':
+            single = True
+        elif args[0] == '--':
+            args = args[1:]
+            break
+        else:
+            raise Unsupported("option %s of '-t commands'" % args[0])
+        args = args[1:]
+    nodes = collect_targets(state, args)
+    seen = set()
+
+    def pr(edge):
+        if edge is None or edge in seen:
+            return
+        seen.add(edge)
+        if not single:
+            for i in edge.inputs:
+                pr(i.in_edge)
+        if not edge.is_phony():
+            sys.stdout.write(edge.evaluate_command() + '\n')
+
+    for n in nodes:
+        pr(n.in_edge)
+    return 0
+
+
+def tool_query(state, config, args, scan):
+    if not args:
+        sys.stderr.write('ninja: error: expected a target to query\n')
+        return 1
+    for node in collect_targets(state, args):
+        sys.stdout.write('%s:\n' % node.path)
+        edge = node.in_edge
+        if edge is not None:
+            if not edge.deps_loaded:
+                edge.deps_loaded = True
+                for o in edge.outputs:
+                    o.stat_if_necessary()
+                scan.load_deps(edge)
+            sys.stdout.write('  input: %s\n' % edge.rule.name)
+            for i, n in enumerate(edge.inputs):
+                label = ''
+                if edge.is_implicit(i):
+                    label = '| '
+                elif edge.is_order_only(i):
+                    label = '|| '
+                sys.stdout.write('    %s%s\n' % (label, n.path))
+        sys.stdout.write('  outputs:\n')
+        for oe in node.out_edges:
+            for o in oe.outputs:
+                sys.stdout.write('    %s\n' % o.path)
+    return 0
+
+
+# --------------------------------------------------------------------------
+# Main
+
+USAGE = """usage: ninja [options] [targets...]
+
+refninja %s -- reference subset of ninja.  Options:
+  --version, -v/--verbose, -C DIR, -f FILE, -j N, -k N, -l N, -n,
+  -d explain|keeprsp|keepdepfile, -w dupbuild=err,
+  -t clean [-g] [-r rules...] [targets...] | targets [all|rule [R]|depth N]
+     | commands [-s] [targets...] | query targets...
+""" % VERSION
+
+
+class Options(object):
+    def __init__(self):
+        self.input_file = 'build.ninja'
+        self.working_dir = None
+        self.tool = None
+        self.tool_args = []
+        self.targets = []
+
+
+def parse_args(argv, config):
+    global EXPLAIN
+    opts = Options()
+    i = 0
+    n = len(argv)
+
+    def optarg(flag, rest):
+        nonlocal i
+        if rest:
+            return rest
+        i += 1
+        if i >= n:
+            raise NinjaFatal("option requires an argument -- '%s'" % flag)
+        return argv[i]
+
+    while i < n:
+        a = argv[i]
+        if a == '--':
+            opts.targets.extend(argv[i + 1:])
+            break
+        if a == '--version':
+            sys.stdout.write(VERSION + '\n')
+            raise SystemExit(0)
+        if a == '--verbose':
+            config.verbose = True
+        elif a == '--quiet':
+            raise Unsupported('--quiet')
+        elif a in ('--help', '-h'):
+            sys.stderr.write(USAGE)
+            raise SystemExit(1)
+        elif a.startswith('--'):
+            raise Unsupported('option ' + a)
+        elif a.startswith('-') and len(a) > 1:
+            j = 1
+            while j < len(a):
+                c = a[j]
+                rest = a[j + 1:]
+                if c == 'n':
+                    config.dry_run = True
+                elif c == 'v':
+                    config.verbose = True
+                elif c in 'Cfjkldtw':
+                    val = optarg(c, rest)
+                    if c == 'C':
+                        opts.working_dir = val
+                    elif c == 'f':
+                        opts.input_file = val
+                    elif c == 'j':
+                        try:
+                            if int(val) < 0:
+                                raise ValueError
+                        except ValueError:
+                            raise NinjaFatal('invalid -j parameter')
+                    elif c == 'k':
+                        try:
+                            k = int(val)
+                        except ValueError:
+                            raise NinjaFatal('-k parameter not numeric; did '
+                                             'you mean -k 0?')
+                        config.failures_allowed = k if k > 0 else (1 << 31)
+                    elif c == 'l':
+                        try:
+                            float(val)
+                        except ValueError:
+                            raise NinjaFatal('-l parameter not numeric: did '
+                                             'you mean -l 0.0?')
+                    elif c == 'd':
+                        if val == 'explain':
+                            EXPLAIN = True
+                        elif val == 'keeprsp':
+                            config.keep_rsp = True
+                        elif val == 'keepdepfile':
+                            config.keep_depfile = True
+                        else:
+                            raise Unsupported('-d ' + val)
+                    elif c == 'w':
+                        if val not in ('dupbuild=err', 'phonycycle=warn'):
+                            raise Unsupported('-w ' + val)
+                    elif c == 't':
+                        if val not in ('clean', 'targets', 'commands',
+                                       'query'):
+                            raise Unsupported('-t ' + val)
+                        opts.tool = val
+                        opts.tool_args = list(argv[i + 1:])
+                        return opts
+                    break
+                else:
+                    raise Unsupported('option -' + c)
+                j += 1
+        else:
+            opts.targets.append(a)
+        i += 1
+    return opts
+
+
+def load_manifest(input_file):
+    state = State()
+    ManifestParser(state).load(input_file)
+    for e in state.edges:
+        if e.is_phony():
+            continue
+        deps = e.get_binding('deps')
+        if deps == 'msvc':
+            raise Unsupported('deps = msvc (output %s)' % e.outputs[0].path)
+        if deps and deps != 'gcc':
+            raise NinjaFatal("unknown deps type '%s'" % deps)
+    return state
+
+
+def open_logs(state):
+    builddir = state.env.lookup('builddir')
+    log_path, deps_path = '.ninja_log', '.ninja_deps'
+    if builddir:
+        try:
+            os.makedirs(builddir, exist_ok=True)
+        except OSError as e:
+            raise NinjaError("creating build directory %s: %s"
+                             % (builddir, os.strerror(e.errno)))
+        log_path = builddir + '/' + log_path
+        deps_path = builddir + '/' + deps_path
+    build_log = BuildLog(log_path)
+    build_log.load()
+    deps_log = DepsLog(deps_path)
+    deps_log.load()
+    return build_log, deps_log
+
+
+def rebuild_manifest(state, config, build_log, deps_log, input_file):
+    """Returns 'rebuilt' (caller must reload and start over), 'ran' (the
+    manifest edge ran but restat found the manifest unchanged; the graph
+    state must be reset) or None (nothing was run)."""
+    path = canonicalize_path(input_file)
+    if not path:
+        raise NinjaError('empty path')
+    node = state.lookup_node(path)
+    if node is None:
+        return None
+    builder = Builder(state, config, build_log, deps_log)
+    builder.add_target(node)
+    if builder.already_up_to_date():
+        return None
+    err = builder.build()
+    if err is not None:
+        raise NinjaError("rebuilding '%s': %s" % (input_file, err))
+    # Only "rebuilt" if still marked dirty (restat may have cleaned it).
+    return 'rebuilt' if node.dirty else 'ran'
+
+
+def run_build(state, config, build_log, deps_log, targets):
+    nodes = collect_targets(state, targets)
+    builder = Builder(state, config, build_log, deps_log)
+    for n in nodes:
+        builder.add_target(n)
+    if builder.already_up_to_date():
+        sys.stdout.write('ninja: no work to do.\n')
+        return 0
+    err = builder.build()
+    if err is not None:
+        sys.stdout.flush()
+        sys.stderr.write('ninja: build stopped: %s.\n' % err)
+        return 1
+    return 0
+
+
+def real_main(argv):
+    config = Config()
+    opts = parse_args(argv, config)
+    if os.environ.get('NINJA_STATUS') not in (None, '[%f/%t] '):
+        raise Unsupported('custom NINJA_STATUS')
+    if opts.working_dir is not None:
+        if opts.tool is None:
+            sys.stdout.write("ninja: Entering directory `%s'\n"
+                             % opts.working_dir)
+            sys.stdout.flush()
+        try:
+            os.chdir(opts.working_dir)
+        except OSError as e:
+            raise NinjaFatal("chdir to '%s' - %s"
+                             % (opts.working_dir, os.strerror(e.errno)))
+
+    for _cycle in range(100):
+        state = load_manifest(opts.input_file)
+        if opts.tool == 'clean':
+            return tool_clean(state, config, opts.tool_args)
+        if opts.tool == 'targets':
+            return tool_targets(state, config, opts.tool_args)
+        if opts.tool == 'commands':
+            return tool_commands(state, config, opts.tool_args)
+        build_log, deps_log = open_logs(state)
+        if opts.tool == 'query':
+            scan = DependencyScan(state, build_log, deps_log)
+            return tool_query(state, config, opts.tool_args, scan)
+        res = rebuild_manifest(state, config, build_log, deps_log,
+                               opts.input_file)
+        if res == 'rebuilt':
+            if config.dry_run:
+                return 0
+            trace_event({'event': 'reload'})
+            continue
+        if res == 'ran':
+            # Ninja: state_.Reset(); a fresh parse is equivalent.
+            state = load_manifest(opts.input_file)
+        return run_build(state, config, build_log, deps_log, opts.targets)
+    raise NinjaError("manifest '%s' still dirty after 100 tries, perhaps "
+                     "system time is not set" % opts.input_file)
+
+
+def main(argv=None):
+    """argv: command-line arguments WITHOUT the program name."""
+    if argv is None:
+        argv = sys.argv[1:]
+    sys.setrecursionlimit(max(sys.getrecursionlimit(), 20000))
+    try:
+        rc = real_main(list(argv))
+    except Unsupported as e:
+        sys.stdout.flush()
+        sys.stderr.write('refninja: unsupported: %s\n' % e)
+        rc = 2
+    except NinjaError as e:
+        sys.stdout.flush()
+        sys.stderr.write('ninja: error: %s\n' % e)
+        rc = 1
+    except NinjaFatal as e:
+        sys.stdout.flush()
+        sys.stderr.write('ninja: fatal: %s\n' % e)
+        rc = 1
+    except KeyboardInterrupt:
+        sys.stdout.flush()
+        sys.stderr.write('ninja: build stopped: interrupted by user.\n')
+        rc = 2
+    except SystemExit as e:
+        rc = e.code if isinstance(e.code, int) else 1
+    try:
+        sys.stdout.flush()
+    except OSError:
+        pass
+    return rc
+
+
+if __name__ == '__main__':
+    sys.exit(main())
